@@ -231,3 +231,36 @@ CHECKS["C16"] = {
     "outside": "IPv6 addresses, digit-count combinations not listed, non-ASCII bytes, free strings longer than 8 bytes; 'deny' rules (the driver supports permit only)",
     "assumptions": FWD_ASSUME + ["net.ParseCIDR/net.ParseIP replaced in the engine by Go-source models (harness/internal/forwarder/zz_models.go) when their argument is symbolic; native replay uses the real functions (differential test on every witness)"],
 }
+
+CHECKS["C15"] = {
+    "dep_overlays": NL_OV, "extra_pkgs": ["internal/forwarder/perio"],
+    "jobs": {
+        "quick": [{"pkg": "internal/forwarder/perio", "entries": ["ZZ_C15_*"], "witnesses": 3, "max_paths": 400000, "budget_s": 900},
+                  {"pkg": "internal/forwarder", "entries": ["ZZ_C15_*"], "witnesses": 3, "max_paths": 100000, "budget_s": 600}],
+        "thorough": [{"pkg": "internal/forwarder/perio", "entries": ["ZZ_C15_*"], "witnesses": 6, "max_paths": 4000000, "budget_s": 3000},
+                     {"pkg": "internal/forwarder", "entries": ["ZZ_C15_*"], "witnesses": 3, "max_paths": 100000, "budget_s": 600}],
+    },
+    "covers": {"all": ["ZZ_C15_Sets:C15.done", "ZZ_C15_Sets:C15.tick.live", "ZZ_C15_Sets:C15.tick.stale", "ZZ_C15_Sets:C15.close", "ZZ_C15_Batch:C15.batch.done"]},
+    "bounds": {"quick": "the real perio.Server.Serve and ticker goroutines as coroutines; 5 events, each ADD (3 (SEID,URR) pairs x 2 periods), DEL (any pair, registered or not), a tick of either period (live or stale) or CLOSE, in every order; batching: psQueryURR/queryMultiURR with the real per-message limit (56) at 1, 55, 56, 57, 112, 113 URRs over 3 SEIDs (concrete ids; every request decoded and answered by the simulated kernel)",
+               "thorough": "same with 6 events"},
+    "outside": "real tickers (ticks are injected as the TIMEOUT events the ticker goroutine sends); more than 3 URRs / 2 periods in the set harness; a URR registered under two periods at once (excluded by the statement)",
+    "assumptions": FWD_ASSUME + ["goroutines are cooperative coroutines; Serve runs to quiescence after every injected event"],
+}
+
+CHECKS["C13"] = {
+    "dep_overlays": NL_OV, "extra_pkgs": ["internal/forwarder/perio"],
+    "jobs": {
+        "quick": [{"pkg": "internal/pfcp", "entries": ["ZZ_C13_*"], "witnesses": 3, "max_paths": 400000, "budget_s": 900},
+                  {"pkg": "internal/forwarder", "entries": ["ZZ_C13_*"], "witnesses": 3, "max_paths": 400000, "budget_s": 900}],
+        "thorough": [{"pkg": "internal/pfcp", "entries": ["ZZ_C13_*"], "witnesses": 6, "max_paths": 4000000, "budget_s": 3000},
+                     {"pkg": "internal/forwarder", "entries": ["ZZ_C13_*"], "witnesses": 6, "max_paths": 4000000, "budget_s": 3000}],
+    },
+    "covers": {"all": ["ZZ_C13_Queue:C13.queue.done", "ZZ_C13_Queue:C13.queue.overflow-dropped", "ZZ_C13_Queue:C13.dldr", "ZZ_C13_Ended:C13.ended.done", "ZZ_C13_Capacity:C13.capacity.done", "ZZ_C13_Unknown:C13.unknown.done",
+                       "ZZ_C13_Notify:C13.notify.done", "ZZ_C13_Release:C13.release.done", "ZZ_C13_Release:C13.release.forw", "ZZ_C13_Release:C13.release.drop",
+                       "ZZ_C13_Release:C13.release.keep", "ZZ_C13_Release:C13.release.not-buffering", "ZZ_C13_Release:C13.release.forw-no-tunnel",
+                       "ZZ_C13_Release:C13.release.action-before-farid"]},
+    "bounds": {"quick": "PFCP side: two sessions created with the real LocalNode.NewSess(rSeid, qlen), qlen in {1,2}; qlen+1 buffer notifications each for session 1 or 2 with symbolic PDR id, action word and payload (empty or 2 bytes); then the queues are drained through PopBufPkt; session end (deletion / re-association) and SEID reuse; unknown SEIDs; one concrete run at the production capacity (513 packets into BUFFQ_LEN=512). Data-plane side: BUFFER netlink message with symbolic SEID, PDR, action, 1..4 payload bytes in both attribute orders; Update FAR with symbolic new action (both IE orders) against a simulated kernel whose FAR record has a symbolic current action, 1..2 related PDRs, outer header creation present/absent (symbolic TEID, two peers), 0..2 QERs with symbolic QFIs, with held packets for related PDRs, an unrelated PDR and another session",
+               "thorough": "same with qlen in {1,2,3}"},
+    "outside": "histories interleaving several FAR updates; more than two related PDRs; the integrated run PfcpServer + Gtp5g in one state (the two sides meet at report.Handler, whose two methods are the harness boundary)",
+    "assumptions": PFCP_ASSUME + FWD_ASSUME,
+}
